@@ -59,6 +59,13 @@ def gen(tier, seed, shard, nshards):
             if b % nshards == shard:
                 yield "boundary", {"p": pp, "K": K, "size": size, "replace": replace, "n_seeds": BSEEDS[tier], "base": seed}
             b += 1
+    # with replacement on medium-sized variable sets: rare slips (a repeated variable once in thousands of interventions) need
+    # many interventions of size >= 3 drawn from 18..60 variables
+    for pm in (18, 25, 40, 60):
+        for (K, size) in ((20, 3), (20, (3, 5)), (12, 5), (30, (2, 4))):
+            if b % nshards == shard:
+                yield "boundary", {"p": pm, "K": K, "size": size, "replace": True, "n_seeds": BSEEDS[tier] // 2, "base": seed}
+            b += 1
     # wrong-length tuples
     t = 0
     for pp in (1, 4, 9):
